@@ -281,9 +281,8 @@ static void export_objects(flatcc_builder_t *B, object_entry_t *objects, int nob
     reflection_Schema_objects_create(B, object_map, (size_t)nobjects);
 }
 
-static void export_enumval(flatcc_builder_t *B, fb_member_t *member, reflection_Object_ref_t *object_map)
+static void export_enumval(flatcc_builder_t *B, fb_member_t *member, reflection_Object_ref_t *object_map, int is_union)
 {
-    int is_union = object_map != 0;
 
     reflection_EnumVal_vec_push_start(B);
     reflection_EnumVal_name_create(B, member->symbol.ident->text, (size_t)member->symbol.ident->len);
@@ -313,7 +312,8 @@ static void export_enums(flatcc_builder_t *B, enum_entry_t *enums, int nenums,
         reflection_Enum_name_create_str(B, enums[i].name);
         reflection_Enum_values_start(B);
         for (sym = ct->members; sym; sym = sym->link) {
-            export_enumval(B, (fb_member_t *)sym, is_union ? object_map : 0);
+            /* The object map is null in a schema without tables and structs: a union of strings is still a union. */
+            export_enumval(B, (fb_member_t *)sym, object_map, is_union);
         }
         reflection_Enum_values_end(B);
         reflection_Enum_is_union_add(B, (flatbuffers_bool_t)is_union);
